@@ -167,6 +167,21 @@ class Arr(object):
         v.readonly = self.readonly
         return v
 
+    @property
+    def flags(self):
+        a = self
+
+        class _Flags(object):
+            writeable = not a.readonly
+            c_contiguous = a.mem_rank() is None and sorted(a.pos) == list(range(min(a.pos or [0]), min(a.pos or [0]) + len(a.pos)))
+            owndata = len(a.pos) == len(a.buf.data)
+            aligned = True
+
+            def __getitem__(self, key):
+                return getattr(self, {'WRITEABLE': 'writeable', 'C_CONTIGUOUS': 'c_contiguous', 'OWNDATA': 'owndata',
+                                      'ALIGNED': 'aligned'}[key])
+        return _Flags()
+
     def setflags(self, write=None, **kw):
         if kw:
             raise AnalysisError('setflags(%s)' % ', '.join(kw))
